@@ -444,7 +444,7 @@ def run_harness(ub, h):
     sdir = ub.scratch
     res = {"unit": u["unit"], "harness": name, "props": h["props"], "expect": h.get("expect", "pass"),
            "functions": h.get("functions", []), "bounded": h.get("bounded"),
-           "enforcement": "dfcc" if h.get("enforce") else "harness", "cmds": [], "solver_s": 0.0}
+           "enforcement": "dfcc" if h.get("enforce") else ("harness+callee-contracts" if h.get("replace") else "harness"), "cmds": [], "solver_s": 0.0}
     gb = os.path.join(sdir, name + ".gb")
     cmd = ["goto-cc", "--function", name, ub.obj, "-o", gb]
     if u["route"] != "c":
@@ -465,7 +465,8 @@ def run_harness(ub, h):
         for g in h.get("replace", []):
             gi += ["--replace-call-with-contract", g]
     elif h.get("replace"):
-        gi += ["--dfcc", name]
+        if h.get("dfcc", True):
+            gi += ["--dfcc", name]
         for g in h.get("replace", []):
             gi += ["--replace-call-with-contract", g]
     if lf:
@@ -494,6 +495,8 @@ def run_harness(ub, h):
         flags += ["--unwind", str(unwind), "--unwinding-assertions"]
     for us in h.get("unwindset", []):
         flags += ["--unwindset", us]
+    if h.get("unwindset") and "--unwinding-assertions" not in flags:
+        flags += ["--unwinding-assertions"]
     flags += [subst(x, ub.env) for x in h.get("cbmc_flags", [])]
     timeout = h.get("timeout", {"quick": 300, "thorough": 1800})
     if isinstance(timeout, dict):
@@ -523,7 +526,7 @@ def run_harness(ub, h):
         o = {"name": r["property"], "desc": r["description"], "status": r["status"],
              "file": loc.get("file", ""), "line": loc.get("line", ""), "function": fn}
         o["internal"] = fn.startswith("__CPROVER_contracts") or r["property"].startswith("__CPROVER_contracts")
-        if r["status"] not in ("SUCCESS", "FAILURE"):
+        if r["status"] not in ("SUCCESS", "FAILURE", "UNKNOWN"):
             res.update(status="undecided", reason="obligation %s has status %s" % (r["property"], r["status"]))
             return res
         if r["status"] == "FAILURE":
@@ -532,6 +535,13 @@ def run_harness(ub, h):
             o["trace_len"] = len(tr)
             fails.append(o)
         obl.append(o)
+    # cbmc reports UNKNOWN for obligations that lie behind a failed one on every path; without any
+    # failure an UNKNOWN means the run is incomplete
+    unknown = [o for o in obl if o["status"] == "UNKNOWN"]
+    if unknown and not fails:
+        res.update(status="undecided", reason="%d obligations UNKNOWN without a failed one (first: %s)" % (len(unknown), unknown[0]["name"]))
+        return res
+    res["n_unknown"] = len(unknown)
     res["obligations"] = obl
     res["n_obligations"] = len(obl)
     res["n_internal"] = sum(1 for o in obl if o["internal"])
